@@ -67,8 +67,11 @@ def make_body(ch, n):
         return s, s.encode(), ch.pick("textmeta", ["text/plain; charset=utf-8", "text/plain",
                                                    "text/plain; charset=iso-8859-1",
                                                    "text/gemini; charset=utf-16; lang=en",
-                                                   "text/plain; charset=x-unknown-9"],
-                                      [4, 2, 1, 1, 1])
+                                                   "text/plain; charset=x-unknown-9",
+                                                   # blanks are part of the meta: sent as they are
+                                                   "text/plain;  format=flowed", "text/plain; name=a\tb",
+                                                   "text/plain; title=x\u00a0y "],
+                                      [4, 2, 1, 1, 1, 1, 1, 1])
     if kind == 2:
         s = ("line %d of text\n" * 1) % 7
         s = (s * (n // len(s) + 1))[:n]
@@ -166,6 +169,11 @@ def _serve_once(ch, backend, cfg, scratch):
                 srv_task.cancel()
             return
         session = None
+        if cfg.get("resume") and cfg["source"] != "handler" and len(body_bytes) >= 2:
+            fname = "f.txt" if cfg["source"] == "start_server" else "f.gmi"
+            first = body_bytes.replace(b"l", b"L").replace(b"u", b"U")
+            if len(first) == len(body_bytes) and first != body_bytes:
+                (pathlib.Path(scratch, "root") / fname).write_bytes(first)
         if cfg.get("resume"):
             # an earlier, ordinary connection of the same client; the judged connection then
             # offers that TLS session for resumption
@@ -177,6 +185,11 @@ def _serve_once(ch, backend, cfg, scratch):
                 if peer0.eof_seen():
                     break
             peer0.drain_final()
+            if cfg["source"] != "handler":
+                # the file is rewritten in place between the two fetches: other content, same
+                # length, (almost certainly) the same second
+                fname = "f.txt" if cfg["source"] == "start_server" else "f.gmi"
+                (pathlib.Path(scratch, "root") / fname).write_bytes(body_bytes)
             session = peer0.eng.obj.session if peer0.eng and peer0.eng.hs_done else None
             out["first_rx_len"] = len(peer0.rx_plain)
         pol = DrawnPolicy(ch, "s2c", cfg["s2c_mode"], latency=0.001,
